@@ -140,6 +140,10 @@ bool linepart::array::apply(const transform &tr, int dim, span<const double> src
 			if (old._cut > pt._cut) {
 				pt._cut = old._cut;
 			}
+			// minimize trailing line if both lines end in the same point
+			if (pt.usr == old.usr && old._trim > pt._trim) {
+				pt._trim = old._trim;
+			}
 			// partial segment
 			if (pt.raw < old.raw) {
 				old.raw -= pt.raw;
@@ -150,10 +154,6 @@ bool linepart::array::apply(const transform &tr, int dim, span<const double> src
 				// smaller old segment
 				if (old.raw < pt.raw) {
 					pt.raw = old.raw;
-				}
-				// minimize trailing line
-				if (old._trim > pt._trim) {
-					pt._trim = old._trim;
 				}
 				// continue in next part
 				if (++pos < oldlen) {
